@@ -135,6 +135,11 @@ impl Model {
         }
     }
 
+    /// overwrite a user variable with a value observed in the implementation (fault relaxation)
+    pub fn adopt_var(&mut self, name: &str, v: V) -> bool {
+        Model::with_var(&self.top.clone(), name, &mut |_, slot| *slot = v.clone()).is_some()
+    }
+
     pub fn probe(&mut self, name: &'static str) {
         *self.probes.entry(name).or_insert(0) += 1;
     }
